@@ -1158,12 +1158,6 @@ Section Main.
     intro Hpk. apply Hkv. subst p. reflexivity.
   Qed.
 
-  Lemma ready_plain fr r tob : ready (fr :: r) tob = true -> plain fr = true.
-  Proof.
-    unfold ready. destruct fr; cbn [put plain]; try discriminate; try reflexivity.
-    destruct key, want_value, rec; try discriminate; reflexivity.
-  Qed.
-
   Lemma recv_end_slice above l below st :
     recv_end above (FSlice l) below st = notify_done (UList l) (set_stack st (tl (above ++ FSlice l :: below))).
   Proof. destruct below; reflexivity. Qed.
@@ -1184,15 +1178,15 @@ Section Main.
       supp uc tc rd ids p t = Some ids' -> stack st = base ->
       (pos_of base = PKey -> p = PKey) -> (pos_of base = PNodeVal -> p = PNodeVal) ->
       (top_is_ftop base = true -> ids = []) -> ready base (tobj st) = true ->
-      pending st = [] -> ids = map fst (marked st) -> env_clean (marked st) -> sem t = Some d ->
+      (pending st = [] /\ rt_tab st = T) -> ids = map fst (marked st) -> env_clean (marked st) -> sem t = Some d ->
       exists st' v,
         exec uc tc st (flat t) = ROk st' /\
         put v (contb t) base (tobj st) = Some (stack st', tobj st') /\
         map fst (marked st') = ids' /\ env_clean (marked st') /\
         erase rd (env_data (marked st)) d = Some (to_dv v, env_data (marked st')) /\
-        has_hole v = false /\ pending st' = [] /\ (p = PKey -> keyval v = true).
+        has_hole v = false /\ (pending st' = [] /\ rt_tab st' = T) /\ (p = PKey -> keyval v = true).
   Proof.
-    intros H ids p ids' st base d Hs Hst Hk Hn Hft Hrdy Hp Hids Hcl Hsem.
+    intros H ids p ids' st base d Hs Hst Hk Hn Hft Hrdy [Hp Hrt] Hids Hcl Hsem.
     assert (A1 : stack st = mkframes None false ++ base) by exact Hst.
     assert (A3 : @None bytes = None -> pos_of base = PNodeVal -> p = PNodeVal) by (intros _; exact Hn).
     assert (A4 : @None bytes <> None -> node_top base = true -> is_container t = true) by (intro X; contradiction).
@@ -1200,29 +1194,29 @@ Section Main.
       by (intro X; contradiction).
     assert (A12 : forall id, @None bytes = Some id -> mem_id id ids' = false /\ mem_id id ids = false)
       by discriminate.
-    destruct (H ids p ids' Hs None st base d A1 Hk A3 A4 A5 Hft Hrdy Hp Hids Hcl Hsem A12)
+    destruct (H ids p ids' Hs None st base d A1 Hk A3 A4 A5 Hft Hrdy Hp Hrt Hids Hcl Hsem A12)
       as [st' [v [m1 [Hex [Hput [Hm [Hf [Hc1 [Her [Hh [Hp' Hkv]]]]]]]]]]].
     cbn [mkentry app] in Hm. subst m1.
-    exists st', v. repeat split; assumption.
+    exists st', v. repeat split; try assumption; apply Hp'.
   Qed.
 
   Lemma elems_run l : Forall value_ok l ->
     forall ids ids' acc rest st ds,
       supp_list ids l = Some ids' ->
       stack st = FSlice acc :: rest ->
-      pending st = [] -> ids = map fst (marked st) -> env_clean (marked st) ->
+      (pending st = [] /\ rt_tab st = T) -> ids = map fst (marked st) -> env_clean (marked st) ->
       omap2 sem l = Some ds ->
       exists st' vs,
         exec uc tc st (flat_map flat l) = ROk st' /\
         stack st' = FSlice (acc ++ vs) :: rest /\ tobj st' = tobj st /\
         map fst (marked st') = ids' /\ env_clean (marked st') /\
         erase_list (erase rd) (env_data (marked st)) ds = Some (map to_dv vs, env_data (marked st')) /\
-        Forall (fun v => has_hole v = false) vs /\ pending st' = [].
+        Forall (fun v => has_hole v = false) vs /\ (pending st' = [] /\ rt_tab st' = T).
   Proof.
     induction 1 as [|x r Hx _ IH]; intros ids ids' acc rest st ds Hs Hst Hp Hids Hcl Hsem.
     - cbn [supp_list] in Hs. inversion Hs; subst ids'. cbn [omap2] in Hsem. inversion Hsem; subst ds.
       exists st, []. cbn [flat_map exec]. rewrite app_nil_r.
-      repeat split; auto.
+      repeat split; auto; apply Hp.
     - cbn [supp_list] in Hs. destruct (supp uc tc rd ids PGen x) as [ids1|] eqn:Hsx; [|discriminate].
       cbn [omap2] in Hsem. destruct (sem x) as [dx|] eqn:Hdx; [|discriminate].
       destruct (omap2 sem r) as [dr|] eqn:Hdr; [|discriminate]. inversion Hsem; subst ds.
@@ -1253,17 +1247,19 @@ Section Main.
     rewrite supp_TList in Hs. destruct (is_key p) eqn:Hkp; [discriminate|].
     cbn [sem] in Hsem. destruct (omap2 sem l) as [ds|] eqn:Hds; [|discriminate]. inversion Hsem; subst d.
     destruct base as [|fr r]; [discriminate|].
-    destruct (begin_container uc tc EList KList mk fr r st eq_refl Hst (ready_plain fr r _ Hrdy))
-      as [st1 [Hb [Hs1 [Ht1 [Hm1 Hp1]]]]].
+    destruct (begin_container uc tc EList KList mk fr r st eq_refl Hst Hrdy)
+      as [st1 [Hb [Hs1 [Ht1 [Hm1 [Hp1 Hrt1]]]]]].
     cbn [new_frame] in Hs1.
-    destruct (elems_run l IHl ids ids' [] (mkframes mk true ++ fr :: r) st1 ds Hs Hs1)
-      as [st2 [vs [Hex2 [Hs2 [Ht2 [Hf2 [Hc2 [Her2 [Hh2 Hp2]]]]]]]]]; try congruence.
-    set (st3 := set_stack st2 (mkframes mk true ++ fr :: r)).
+    set (rest := mkframes mk true ++ keyed fr :: r) in *.
+    assert (Hq1 : pending st1 = [] /\ rt_tab st1 = T) by (split; congruence).
+    destruct (elems_run l IHl ids ids' [] rest st1 ds Hs Hs1 Hq1)
+      as [st2 [vs [Hex2 [Hs2 [Ht2 [Hf2 [Hc2 [Her2 [Hh2 [Hp2 Hrt2]]]]]]]]]]; try congruence.
+    set (st3 := set_stack st2 rest).
     assert (Hhl : has_hole (UList vs) = false) by (apply has_hole_list; exact Hh2).
     destruct (ready_put (fr :: r) (tobj st) (UList vs) true Hrdy) as [s' [t' Hput]].
-    destruct (finish_container (UList vs) mk (fr :: r) st3 s' t') as [st4 [Hnd [Hs4 [Ht4 [Hm4 Hp4]]]]];
+    destruct (finish_container (UList vs) mk (keyed fr :: r) st3 s' t') as [st4 [Hnd [Hs4 [Ht4 [Hm4 [Hp4 Hrt4]]]]]];
       try assumption; try reflexivity.
-    { change (tobj st3) with (tobj st2). rewrite Ht2, Ht1. exact Hput. }
+    { change (tobj st3) with (tobj st2). rewrite Ht2, Ht1, putc_keyed by exact Hrdy. exact Hput. }
     { apply (fresh_after mk ids ids' Hfresh). exact Hf2. }
     exists st4, (UList vs), (marked st2). split.
     { cbn [flat exec]. rewrite Hb. cbn [rbind].
@@ -1275,7 +1271,7 @@ Section Main.
     split. { exact Hc2. }
     split. { cbn [erase to_dv]. rewrite Hm1 in Her2. rewrite Her2. reflexivity. }
     split. { exact Hhl. }
-    split. { exact Hp4. }
+    split. { split; [exact Hp4|]. rewrite Hrt4. exact Hrt2. }
     intro Hpk. subst p. discriminate.
   Qed.
 
@@ -1287,25 +1283,26 @@ Section Main.
     cbn [sem] in Hsem. destruct (sem v) as [dvv|] eqn:Hdv; [|discriminate].
     destruct (omap2 sem ch) as [ds|] eqn:Hds; [|discriminate]. inversion Hsem; subst d.
     destruct base as [|fr r]; [discriminate|].
-    destruct (begin_container uc tc ENode KNode mk fr r st eq_refl Hst (ready_plain fr r _ Hrdy))
-      as [st1 [Hb [Hs1 [Ht1 [Hm1 Hp1]]]]].
+    destruct (begin_container uc tc ENode KNode mk fr r st eq_refl Hst Hrdy)
+      as [st1 [Hb [Hs1 [Ht1 [Hm1 [Hp1 Hrt1]]]]]].
     cbn [new_frame] in Hs1.
-    set (rest := mkframes mk true ++ fr :: r) in *.
+    set (rest := mkframes mk true ++ keyed fr :: r) in *.
+    assert (Hq1 : pending st1 = [] /\ rt_tab st1 = T) by (split; congruence).
     (* the node's value *)
     destruct (use_value v IHv ids PNodeVal ids1 st1 (FNode false UNil :: rest) dvv Hsv Hs1)
-      as [st2 [xv [Hex2 [Hput2 [Hf2 [Hc2 [Her2 [Hh2 [Hp2 _]]]]]]]]];
-      try congruence; try reflexivity; try discriminate.
+      as [st2 [xv [Hex2 [Hput2 [Hf2 [Hc2 [Her2 [Hh2 [Hq2 _]]]]]]]]];
+      try congruence; try reflexivity; try discriminate; try assumption.
     cbn [put] in Hput2. inversion Hput2 as [[Hs2 Ht2]].
     (* the children *)
-    destruct (elems_run ch IHch ids1 ids' [] (FNode true xv :: rest) st2 ds Hs (eq_sym Hs2))
-      as [st3 [vs [Hex3 [Hs3 [Ht3 [Hf3 [Hc3 [Her3 [Hh3 Hp3]]]]]]]]]; try congruence.
+    destruct (elems_run ch IHch ids1 ids' [] (FNode true xv :: rest) st2 ds Hs (eq_sym Hs2) Hq2)
+      as [st3 [vs [Hex3 [Hs3 [Ht3 [Hf3 [Hc3 [Her3 [Hh3 [Hp3 Hrt3]]]]]]]]]]; try congruence.
     set (st4 := set_stack st3 rest).
     assert (Hhl : has_hole (UNode xv vs) = false).
     { cbn [has_hole]. rewrite Hh2, (has_hole_list vs Hh3). reflexivity. }
     destruct (ready_put (fr :: r) (tobj st) (UNode xv vs) true Hrdy) as [s' [t' Hput]].
-    destruct (finish_container (UNode xv vs) mk (fr :: r) st4 s' t') as [st5 [Hnd [Hs5 [Ht5 [Hm5 Hp5]]]]];
+    destruct (finish_container (UNode xv vs) mk (keyed fr :: r) st4 s' t') as [st5 [Hnd [Hs5 [Ht5 [Hm5 [Hp5 Hrt5]]]]]];
       try assumption; try reflexivity.
-    { change (tobj st4) with (tobj st3). rewrite Ht3, <- Ht2, Ht1. exact Hput. }
+    { change (tobj st4) with (tobj st3). rewrite Ht3, <- Ht2, Ht1, putc_keyed by exact Hrdy. exact Hput. }
     { apply (fresh_after mk ids ids' Hfresh). exact Hf3. }
     exists st5, (UNode xv vs), (marked st3). split.
     { cbn [flat exec]. rewrite Hb. cbn [rbind].
@@ -1320,7 +1317,7 @@ Section Main.
     split. { exact Hc3. }
     split. { cbn [erase to_dv]. rewrite Hm1 in Her2. rewrite Her2, Her3. reflexivity. }
     split. { exact Hhl. }
-    split. { exact Hp5. }
+    split. { split; [exact Hp5|]. rewrite Hrt5. exact Hrt3. }
     intro Hpk. subst p. discriminate.
   Qed.
 
@@ -1402,7 +1399,7 @@ Section Main.
     forall ids ids' id acc key0 rest st dkvs kds,
       supp_kvs ids kvs = Some ids' ->
       stack st = FMap id acc key0 false None :: rest ->
-      pending st = [] -> ids = map fst (marked st) -> env_clean (marked st) ->
+      (pending st = [] /\ rt_tab st = T) -> ids = map fst (marked st) -> env_clean (marked st) ->
       omap2 sem_kv kvs = Some dkvs ->
       omap2 key_data (map fst kvs) = Some kds ->
       dkeys_distinct (map (fun kx => to_dv (fst kx)) acc ++ kds) = true ->
@@ -1412,12 +1409,13 @@ Section Main.
         stack st' = FMap id (acc ++ es) key1 false None :: rest /\ tobj st' = tobj st /\
         map fst (marked st') = ids' /\ env_clean (marked st') /\
         erase_kvs (env_data (marked st)) dkvs = Some (map kv_dv es, env_data (marked st')) /\
-        Forall (fun kx => has_hole (fst kx) = false /\ has_hole (snd kx) = false) es /\ pending st' = [].
+        Forall (fun kx => has_hole (fst kx) = false /\ has_hole (snd kx) = false) es /\
+        (pending st' = [] /\ rt_tab st' = T).
   Proof.
     induction 1 as [|[k v] r [Hk Hv] _ IH];
       intros ids ids' id acc key0 rest st dkvs kds Hs Hst Hp Hids Hcl Hsem Hkds Hdis Hkv.
     - cbn [supp_kvs] in Hs. inversion Hs; subst ids'. cbn [omap2] in Hsem. inversion Hsem; subst dkvs.
-      exists st, [], key0. cbn [flat_map exec]. rewrite app_nil_r. repeat split; auto.
+      exists st, [], key0. cbn [flat_map exec]. rewrite app_nil_r. repeat split; auto; apply Hp.
     - cbn [fst snd] in Hk, Hv.
       cbn [supp_kvs] in Hs. destruct (supp uc tc rd ids PKey k) as [ids1|] eqn:Hsk; [|discriminate].
       destruct (supp uc tc rd ids1 PGen v) as [ids2|] eqn:Hsv; [|discriminate].
